@@ -769,7 +769,6 @@ func GenPaused(c *lib.Ctx) {
 	}
 	wg.Wait()
 	answer := map[string]string{}
-	c.Comment("history timed-delivery")
 	for i, op := range order {
 		if strings.HasPrefix(ans[i], "harness-assumption-broken") {
 			// environment (ports, load): once more, alone
@@ -781,6 +780,7 @@ func GenPaused(c *lib.Ctx) {
 			continue
 		}
 		answer[op] = ans[i]
+		c.Comment(fmt.Sprintf("history timed-delivery %d", i)) // every op is a history of its own
 		c.Emit(op, ans[i])
 	}
 	// --- oracle
@@ -827,8 +827,10 @@ func GenPaused(c *lib.Ctx) {
 			}
 		}
 	}
-	// silently different data first (the replay that is kept is the first failure)
-	for _, f := range append(wrongData, wrongVerdict...) {
-		c.Fail("c14ntske:timed-delivery", f.what, f.ops, f.detail)
+	for _, f := range wrongData {
+		c.Fail("c14ntske:timed-delivery:different-data", f.what, f.ops, f.detail)
+	}
+	for _, f := range wrongVerdict {
+		c.Fail("c14ntske:timed-delivery:different-verdict", f.what, f.ops, f.detail)
 	}
 }
